@@ -1662,7 +1662,24 @@ class FlowProposal(RejectionProposal):
         # Flow might have exited before any weights were saved.
         if weights_file is not None:
             if os.path.exists(weights_file):
-                self.flow.reload_weights(weights_file)
+                try:
+                    self.flow.reload_weights(weights_file)
+                except Exception as e:
+                    # The weights file can be incomplete if the sampler was
+                    # killed whilst it was being written, fallback to the
+                    # previous weights which are moved to .old before saving.
+                    logger.warning(
+                        f"Could not load weights from {weights_file} "
+                        f"with error: {e}"
+                    )
+                    old_weights_file = weights_file + ".old"
+                    if os.path.exists(old_weights_file):
+                        logger.warning(
+                            f"Trying to load weights from {old_weights_file}"
+                        )
+                        self.flow.reload_weights(old_weights_file)
+                    else:
+                        logger.warning("Could not reload weights for flow")
         else:
             logger.warning("Could not reload weights for flow")
 
